@@ -4,6 +4,9 @@ every run as Lean definitions over Python dictionaries in insertion order (`Mode
     ImportanceNestedSampler.add_new_proposal_weight     (nessai/samplers/importancesampler.py)
     ImportanceFlowProposal.update_proposal_weights      (nessai/proposal/importance.py)
     ImportanceFlowProposal.compute_meta_proposal_from_log_q   (log Q = logsumexp(log_q, b=weights, axis=1)  ↦  Σ_k w_k q_k per row)
+    ImportanceFlowProposal.update_log_q                 (the six statements, by their text: guard, rescale, density of the current
+                                                         proposal, column appended with the Jacobian)
+    ImportanceNestedSampler.add_and_update_points       (the re-weighting sequence update_log_q / logQ / logW / add_samples of each store)
 
 `C03.add_new_proposal_weight_source_eq_model` proves the first two (composed as the source composes them) equal to the model's
 `Meta.addProposalWeight`, `C03.meta_from_log_q_source_eq_model` the third equal to `Meta.mix` row by row.
@@ -230,6 +233,69 @@ def translate(repo):
                f"  {lq}.map (mix (PyDict.values self__weights))\n")
     infos["compute_meta_proposal_from_log_q"] = info
     infos["weights_array"] = infow
+    # ---- ImportanceFlowProposal.update_log_q(self, samples, log_q)
+    fn, info = _function(repo, "nessai/proposal/importance.py", "ImportanceFlowProposal", "update_log_q")
+    smp, lq = _args(fn, ["samples", "log_q"])
+    body = [ast.unparse(s) for s in fn.body if not (isinstance(s, ast.Expr) and isinstance(s.value, ast.Constant))]
+    if len(body) != 6 or not isinstance(fn.body[-1], ast.Return):
+        raise TranslationError("update_log_q: not the six modelled statements")
+    guard = [s for s in fn.body if isinstance(s, ast.If)]
+    if (len(guard) != 1 or guard[0] is not [s for s in fn.body if not (isinstance(s, ast.Expr) and isinstance(s.value, ast.Constant))][0]
+            or ast.unparse(guard[0].test) != f"{lq}.shape[1] == self.n_proposals" or guard[0].orelse or len(guard[0].body) != 1
+            or not isinstance(guard[0].body[0], ast.Raise) or not ast.unparse(guard[0].body[0].exc).startswith("ValueError")):
+        raise TranslationError(f"update_log_q: guard is not `if {lq}.shape[1] == self.n_proposals: raise ValueError`")
+    want = [None, f"x, log_j = self.rescale({smp})", "log_prob_fn = self.get_proposal_log_prob(self.level_count)",
+            "log_q_current = log_prob_fn(x)",
+            f"{lq} = np.concatenate([{lq}, log_q_current[:, np.newaxis] + log_j[:, np.newaxis]], axis=1)", f"return {lq}"]
+    for got, w_ in zip(body[1:], want[1:]):
+        if got != w_:
+            raise TranslationError(f"update_log_q: statement outside the fragment: {got[:90]!r} (modelled: {w_!r})")
+    out.append(f"/-- `{lq}.shape[1]` of a non-empty two-dimensional array held as the list of its rows -/\n"
+               "def shape1 (a : List (List K)) : Nat := match a with | [] => 0 | r :: _ => r.length\n\n"
+               f"/-- GENERATED from `{info['source']}`, `ImportanceFlowProposal.update_log_q` (lines {info['lines'][0]}–{info['lines'][1]}, sha256 "
+               f"{info['sha256']}): the density table with the column of the CURRENT proposal appended; `log_q_current` = the proposal's\n"
+               "    density at the rescaled samples, `log_j` = the Jacobian factor of the rescaling (log-domain `+` is `*`). -/\n"
+               f"def update_log_q (self_n_proposals : Nat) ({lq} : List (List K)) (log_q_current log_j : List K) : Except Err (List (List K)) :=\n"
+               f"  if (shape1 {lq} == self_n_proposals) then .error .valueErr else\n"
+               f"  let {lq}1 : List (List K) := List.zipWith (fun row c => row ++ [c]) {lq} (List.zipWith (· * ·) log_q_current log_j)\n"
+               f"  .ok {lq}1\n")
+    infos["update_log_q"] = info
+    # ---- the re-weighting of the stored samples in ImportanceNestedSampler.add_and_update_points
+    fn, info = _function(repo, "nessai/samplers/importancesampler.py", "ImportanceNestedSampler", "add_and_update_points")
+    flat = []          # (statement text, guarded by `if self.draw_iid_live`)
+    for st in fn.body:
+        if isinstance(st, ast.If) and ast.unparse(st.test) == "self.draw_iid_live" and not st.orelse:
+            flat += [(ast.unparse(x), True) for x in st.body]
+        else:
+            flat.append((ast.unparse(st), False))
+    texts = [t for t, _ in flat]
+    for P, guarded, new, nlq in (("self.training_samples", False, "new_samples", "log_q"), ("self.iid_samples", True, "iid_samples", "iid_log_q")):
+        triple = [f"{P}.log_q = self.proposal.update_log_q({P}.samples, {P}.log_q)",
+                  f"{P}.samples['logQ'] = self.proposal.compute_meta_proposal_from_log_q({P}.log_q)",
+                  f"{P}.samples['logW'] = {P}.samples['logU'] - {P}.samples['logQ']",
+                  f"{P}.add_samples({new}, {nlq})"]
+        if triple[0] not in texts:
+            raise TranslationError(f"add_and_update_points: no `{triple[0]}`")
+        i = texts.index(triple[0])
+        if texts[i:i + 4] != triple or any(g != guarded for _, g in flat[i:i + 4]):
+            raise TranslationError(f"add_and_update_points: the re-weighting of {P} is not the modelled sequence "
+                                   f"update_log_q / logQ / logW / add_samples: {texts[i:i + 4]}")
+        if sum(1 for t in texts if f"{P}.samples['logQ'] =" in t or f"{P}.samples['logW'] =" in t or f"{P}.log_q =" in t) != 3:
+            raise TranslationError(f"add_and_update_points: {P} is written outside the modelled sequence")
+    out.append(f"/-- GENERATED from `{info['source']}`, `ImportanceNestedSampler.add_and_update_points` (lines {info['lines'][0]}–"
+               f"{info['lines'][1]}, sha256 {info['sha256']}): the statements that re-weight a sample store before the new samples are added —\n"
+               "    `S.log_q = proposal.update_log_q(S.samples, S.log_q)`, `S.samples['logQ'] = proposal.compute_meta_proposal_from_log_q(S.log_q)`,\n"
+               "    `S.samples['logW'] = S.samples['logU'] - S.samples['logQ']` — found in this order for `training_samples` and, under\n"
+               "    `if self.draw_iid_live`, for `iid_samples`; returns the new (`log_q`, `logQ`, `logW`) of the store. -/\n"
+               "def reweight_store (self__weights : List (Int × K)) (self_n_proposals : Nat) (log_q : List (List K))\n"
+               "    (logU log_q_current log_j : List K) : Except Err (List (List K) × List K × List K) :=\n"
+               "  match update_log_q self_n_proposals log_q log_q_current log_j with\n"
+               "  | .error e => .error e\n"
+               "  | .ok log_q1 =>\n"
+               "    let logQ1 : List K := compute_meta_proposal_from_log_q self__weights log_q1\n"
+               "    let logW1 : List K := List.zipWith (· / ·) logU logQ1\n"
+               "    .ok (log_q1, logQ1, logW1)\n")
+    infos["add_and_update_points"] = info
     return "\n".join(out), infos
 
 
